@@ -50,16 +50,16 @@ theorem replay_append (c : Cfg) (h₁ h₂ : List Ev) : replay c (h₁ ++ h₂) 
 /-- named mode -/
 def SelNamed (s : St) (t p : Nat) : Prop := (t ∈ s.whole ∧ (t, p) ∉ s.removed) ∨ (t, p) ∈ s.pinned
 
-theorem selected_named {c : Cfg} (hc : c.regex = false) (s : St) (t p : Nat) :
-    selected c s t p = true ↔ SelNamed s t p := by
+theorem selected_named {c : Cfg} (hc : c.regex = false) (s : St) (t g p : Nat) :
+    selected c s t g p = true ↔ SelNamed s t p := by
   simp [selected, hc, SelNamed]
 
-/-- regex mode -/
-def SelRegex (s : St) (t : Nat) : Prop :=
-  (∃ tp, topicOf s t = some tp ∧ tp.incl = true ∧ tp.excluded = false ∧ tp.internal = false) ∧ t ∉ s.waiting ∧ t ∉ s.gone
+/-- regex mode (incarnation `g` of topic `t`) -/
+def SelRegex (s : St) (t g : Nat) : Prop :=
+  (∃ tp, topicOf s t = some tp ∧ tp.incl = true ∧ tp.excluded = false ∧ tp.internal = false) ∧ t ∉ s.waiting ∧ (t, g) ∉ s.gone
 
-theorem selected_regex {c : Cfg} (hc : c.regex = true) (s : St) (t p : Nat) :
-    selected c s t p = true ↔ SelRegex s t := by
+theorem selected_regex {c : Cfg} (hc : c.regex = true) (s : St) (t g p : Nat) :
+    selected c s t g p = true ↔ SelRegex s t g := by
   simp only [selected, hc, if_true, SelRegex, regexWants]
   cases h : topicOf s t with
   | none => simp
@@ -83,7 +83,7 @@ theorem unselected_preserved {c : Cfg} (hc : c.regex = false) {s : St} {t p : Na
     have hne : (t, p) ≠ (t', p') := fun h => hev (Or.inr (Or.inr (Or.inr (by cases h; rfl))))
     simp only [apply, List.mem_cons]
     exact ⟨hw, fun h => h.elim hne hp⟩
-  | created _ _ _ _ _ => exact ⟨hw, hp⟩
+  | created _ _ _ _ _ _ => exact ⟨hw, hp⟩
   | grown _ _ => exact ⟨hw, hp⟩
   | deleted _ => exact ⟨hw, hp⟩
   | addTopic t' =>
@@ -111,8 +111,8 @@ theorem unselected_preserved {c : Cfg} (hc : c.regex = false) {s : St} {t p : Na
     simp only [apply, hc, Bool.false_eq_true, ↓reduceIte, List.mem_filter]
     refine ⟨fun h => ⟨hw h.1, ?_⟩, fun h => hp h.1⟩
     simpa using h.2
-  | produced _ _ _ _ => exact ⟨hw, hp⟩
-  | returned _ _ _ _ => exact ⟨hw, hp⟩
+  | produced _ _ _ _ _ => exact ⟨hw, hp⟩
+  | returned _ _ _ _ _ => exact ⟨hw, hp⟩
   | refresh => exact ⟨hw, hp⟩
   | incomplete => exact ⟨hw, hp⟩
   | quiesce => exact ⟨hw, hp⟩
@@ -147,8 +147,8 @@ theorem unselected_after_purge {c : Cfg} (hc : c.regex = false) (s : St) (t p : 
 /-! ### regex mode: purged topics -/
 
 /-- regex mode: a purged topic stays out (waiting for re-discovery, or gone) until a refresh -/
-theorem out_preserved {c : Cfg} (hc : c.regex = true) {s : St} {t : Nat} (ho : t ∈ s.waiting ∨ t ∈ s.gone)
-    (ev : Ev) (hev : ev ≠ .refresh) : t ∈ (apply c s ev).waiting ∨ t ∈ (apply c s ev).gone := by
+theorem out_preserved {c : Cfg} (hc : c.regex = true) {s : St} {t g : Nat} (ho : t ∈ s.waiting ∨ (t, g) ∈ s.gone)
+    (ev : Ev) (hev : ev ≠ .refresh) : t ∈ (apply c s ev).waiting ∨ (t, g) ∈ (apply c s ev).gone := by
   cases ev with
   | refresh => exact absurd rfl hev
   | purged t' =>
@@ -163,9 +163,9 @@ theorem out_preserved {c : Cfg} (hc : c.regex = true) {s : St} {t : Nat} (ho : t
   | removePart _ _ => simpa [apply, hc] using ho
   | _ => exact ho
 
-theorem out_preserved_list {c : Cfg} (hc : c.regex = true) {t : Nat} (h : List Ev) :
-    ∀ {s : St}, (t ∈ s.waiting ∨ t ∈ s.gone) → (∀ e ∈ h, e ≠ .refresh) →
-      t ∈ (h.foldl (apply c) s).waiting ∨ t ∈ (h.foldl (apply c) s).gone := by
+theorem out_preserved_list {c : Cfg} (hc : c.regex = true) {t g : Nat} (h : List Ev) :
+    ∀ {s : St}, (t ∈ s.waiting ∨ (t, g) ∈ s.gone) → (∀ e ∈ h, e ≠ .refresh) →
+      t ∈ (h.foldl (apply c) s).waiting ∨ (t, g) ∈ (h.foldl (apply c) s).gone := by
   induction h with
   | nil => intro s ho _; exact ho
   | cons e es ih =>
@@ -173,9 +173,9 @@ theorem out_preserved_list {c : Cfg} (hc : c.regex = true) {t : Nat} (h : List E
     simp only [List.foldl_cons]
     exact ih (out_preserved hc ho e (hall e List.mem_cons_self)) (fun e' he' => hall e' (List.mem_cons_of_mem _ he'))
 
-/-- regex mode: a topic that is gone stays gone under every event -/
-theorem gone_preserved {c : Cfg} (hc : c.regex = true) {s : St} {t : Nat} (hg : t ∈ s.gone) (ev : Ev) :
-    t ∈ (apply c s ev).gone := by
+/-- regex mode: an incarnation that is gone stays gone under every event (also under the re-creation of the topic) -/
+theorem gone_preserved {c : Cfg} (hc : c.regex = true) {s : St} {t g : Nat} (hg : (t, g) ∈ s.gone) (ev : Ev) :
+    (t, g) ∈ (apply c s ev).gone := by
   cases ev with
   | refresh => simp only [apply]; exact List.mem_append_right _ hg
   | purged t' =>
@@ -190,21 +190,21 @@ theorem gone_preserved {c : Cfg} (hc : c.regex = true) {s : St} {t : Nat} (hg : 
   | removePart _ _ => simpa [apply, hc] using hg
   | _ => exact hg
 
-theorem gone_preserved_list {c : Cfg} (hc : c.regex = true) {t : Nat} (h : List Ev) :
-    ∀ {s : St}, t ∈ s.gone → t ∈ (h.foldl (apply c) s).gone := by
+theorem gone_preserved_list {c : Cfg} (hc : c.regex = true) {t g : Nat} (h : List Ev) :
+    ∀ {s : St}, (t, g) ∈ s.gone → (t, g) ∈ (h.foldl (apply c) s).gone := by
   induction h with
   | nil => intro s hg; exact hg
   | cons e es ih => intro s hg; simp only [List.foldl_cons]; exact ih (gone_preserved hc hg e)
 
 /-! ### produced / returned records of a history -/
 
-def prodEv : Ev → Option (Nat × Nat × Nat × Nat)
-  | .produced id t p off => some (id, t, p, off) | _ => none
-def retEv : Ev → Option (Nat × Nat × Nat × Nat)
-  | .returned t p off id => some (t, p, off, id) | _ => none
-/-- acknowledged records `(id, topic, partition, offset)` -/
+def prodEv : Ev → Option (Nat × Nat × Nat × Nat × Nat)
+  | .produced id t g p off => some (id, t, g, p, off) | _ => none
+def retEv : Ev → Option (Nat × Nat × Nat × Nat × Nat)
+  | .returned t g p off id => some (t, g, p, off, id) | _ => none
+/-- acknowledged records `(id, topic, incarnation, partition, offset)` -/
 def producedOf (h : List Ev) := h.filterMap prodEv
-/-- returned records `(topic, partition, offset, id)` -/
+/-- returned records `(topic, incarnation, partition, offset, id)` -/
 def returnedOf (h : List Ev) := h.filterMap retEv
 def incEv : Ev → Bool
   | .incomplete => true | _ => false
@@ -246,21 +246,21 @@ theorem replay_ret (c : Cfg) (h : List Ev) : (replay c h).ret = returnedOf h := 
 theorem replay_incomplete (c : Cfg) (h : List Ev) : (replay c h).incomplete = isIncomplete h := by
   simp [replay, foldl_incomplete, isIncomplete]
 
-theorem mem_producedOf {h : List Ev} {id t p off : Nat} : (id, t, p, off) ∈ producedOf h ↔ Ev.produced id t p off ∈ h := by
+theorem mem_producedOf {h : List Ev} {id t g p off : Nat} : (id, t, g, p, off) ∈ producedOf h ↔ Ev.produced id t g p off ∈ h := by
   simp only [producedOf, List.mem_filterMap]
   constructor
   · rintro ⟨e, he, hp⟩
     cases e <;> simp [prodEv] at hp
-    obtain ⟨rfl, rfl, rfl, rfl⟩ := hp
+    obtain ⟨rfl, rfl, rfl, rfl, rfl⟩ := hp
     exact he
   · intro he; exact ⟨_, he, rfl⟩
 
-theorem mem_returnedOf {h : List Ev} {t p off id : Nat} : (t, p, off, id) ∈ returnedOf h ↔ Ev.returned t p off id ∈ h := by
+theorem mem_returnedOf {h : List Ev} {t g p off id : Nat} : (t, g, p, off, id) ∈ returnedOf h ↔ Ev.returned t g p off id ∈ h := by
   simp only [returnedOf, List.mem_filterMap]
   constructor
   · rintro ⟨e, he, hp⟩
     cases e <;> simp [retEv] at hp
-    obtain ⟨rfl, rfl, rfl, rfl⟩ := hp
+    obtain ⟨rfl, rfl, rfl, rfl, rfl⟩ := hp
     exact he
   · intro he; exact ⟨_, he, rfl⟩
 
